@@ -79,7 +79,20 @@ func sameSeq(x, y []MalType) bool {
 }
 
 func program() (setup MalType, prog MalType) {
-	switch vrt.Concrete(vrt.Choice("family", 4)) {
+	switch vrt.Concrete(vrt.Choice("family", 5)) {
+	case 4:
+		// malformed special forms (they fail with an ordinary error, C04), bare or inside try/catch
+		sy := func(n string) MalType { return Symbol{Val: n} }
+		bad := []MalType{
+			List{Val: []MalType{sy("fn")}},
+			List{Val: []MalType{sy("defmacro"), sy("m"), 1}},
+			List{Val: []MalType{sy("defmacro")}},
+			List{Val: []MalType{sy("let"), 5, 1}},
+		}[vrt.Concrete(vrt.Choice("bad", 4))]
+		if vrt.Bool("intry") {
+			return nil, List{Val: []MalType{sy("try"), bad, List{Val: []MalType{sy("catch"), sy("e"), List{Val: []MalType{sy("trace!"), 9}}}}}}
+		}
+		return nil, bad
 	case 0:
 		return nil, c01.Program("p", vrt.Param("depth", 1), vrt.Param("width", 1))
 	case 1:
